@@ -2944,8 +2944,11 @@ namespace Clipper2Lib {
 
   bool ClipperBase::CheckSplitOwner(OutRec* outrec, OutRecList* splits)
   {
-    for (auto split : *splits)
+    // nb: splits->size() isn't static here because CheckBounds below can
+    // indirectly append to this list (via CleanCollinear & DoSplitOp)
+    for (size_t i = 0; i < splits->size(); ++i)
     {
+      OutRec* split = (*splits)[i];
       if (!split->pts && split->splits && split->recursive_split != outrec)
       {
         split->recursive_split = outrec; // prevent infinite loops
